@@ -610,3 +610,90 @@ func TestFecMismatch(t *testing.T) {
 	sum.Traces, sum.Lines = tf.N, tf.L
 	vh.WriteJSON(filepath.Join(out, "fec_mismatch.json"), sum)
 }
+
+// TestFecForged (C05, decoder part): a young decoder (newest shard set near the encoder's start) receives genuine traffic mixed
+// with datagrams whose FEC sequence id has been altered into boundary regions of the id space -- just below / above 2^31 away
+// from the newest id (where the signed "how far behind" comparison flips), just below / at / above the wrap value paws, the top
+// of the 32-bit word, and random ids -- keeping type and position consistent so that the decoder does not suspend decoding,
+// with many distinct shard ids. The decoder's state must stay bounded (C05_DecoderBounded: at most maxShardSets+2 shard sets,
+// each with at most d+p packets) and it must never panic; the genuine traffic must still be recovered (C07 monitors).
+func TestFecForged(t *testing.T) {
+	out := vh.OutDir(t)
+	rng := rand.New(rand.NewSource(vh.Seed()*7368787 + 5))
+	runs := vh.EnvInt("FEC_RUNS", 24)
+	tf, err := vh.OpenTraceFile(filepath.Join(out, "fec_forged.ndjson"))
+	vh.Must(err)
+	sum := &summary{Kinds: map[string]int{}}
+	ratios := [][2]int{{1, 1}, {2, 1}, {3, 2}, {10, 3}, {5, 5}, {128, 127}}
+	for r := 0; r < runs; r++ {
+		synctest.Test(t, func(t *testing.T) {
+			dp := ratios[rng.Intn(len(ratios))]
+			n := uint32(dp[0] + dp[1])
+			paws := realPaws(int(n))
+			starts := []uint32{0, n * 1000, (1 << 31) / n * n, paws - 40*n, uint32(rng.Int63n(int64(paws))) / n * n}
+			start := starts[rng.Intn(len(starts))]
+			w := newWorld(dp[0], dp[1], dp[0], dp[1], start)
+			tr := &vh.Trace{}
+			base := start
+			forgedIDs := 0
+			for step := 0; step < 400 && len(sum.Panics) == 0; step++ {
+				pkts, _ := w.encode(1+rng.Intn(200), true)
+				w.air = nil
+				for _, p := range pkts {
+					if rng.Intn(5) == 0 {
+						continue // lost
+					}
+					outs, pm := w.decode(p)
+					w.record(tr, "Decode", &p, outs, nil, false, base, pm)
+					sum.Steps++
+					if pm != "" {
+						sum.Panics = append(sum.Panics, fmt.Sprintf("forged%d genuine seq=%d: %s", r, p.Seq, pm))
+					}
+				}
+				// a burst of altered copies of the last packet, every one in a different shard set
+				last := pkts[len(pkts)-1]
+				pos := last.Seq % n
+				for k := 0; k < 8; k++ {
+					var region uint32
+					switch rng.Intn(7) {
+					case 0:
+						region = last.Seq + (1 << 31) - uint32(rng.Intn(4000))*n
+					case 1:
+						region = last.Seq + (1 << 31) + uint32(rng.Intn(4000))*n
+					case 2:
+						region = paws - uint32(1+rng.Intn(4000))*n
+					case 3:
+						region = paws + uint32(rng.Intn(3))*n // at / beyond the wrap value: must be ignored
+					case 4:
+						region = 0xffffffff - uint32(rng.Intn(4000))*n
+					case 5:
+						region = last.Seq - uint32(5+rng.Intn(100000))*n // far behind
+					default:
+						region = rng.Uint32()
+					}
+					seq := region/n*n + pos
+					f := pkt{Seq: seq, Flag: last.Flag, Gid: -1000 - forgedIDs, Idx: last.Idx, Size: last.Size, raw: append([]byte(nil), last.raw...)}
+					binary.LittleEndian.PutUint32(f.raw, seq)
+					forgedIDs++
+					_, pm := w.decode(f)
+					// identity checks do not apply to a forged packet: only the decoder's state and the absence of a panic are judged
+					ev := map[string]any{"ev": "op", "name": "Decode", "panic": pm != "", "forged": true,
+						"pkt": map[string]any{"seq": int64(int32(seq - base)), "flag": f.Flag, "gid": -1, "idx": f.Idx, "size": f.Size, "ed": w.ed, "ep": w.ep},
+						"out": []outJ{}, "reached": false, "live": false, "seen": []int{}, "dec": w.proj(base)}
+					tr.Add(ev)
+					sum.Steps++
+					sum.Kinds["forged-seqid"]++
+					if pm != "" {
+						sum.Panics = append(sum.Panics, fmt.Sprintf("forged%d seq=%d: %s", r, seq, pm))
+					}
+				}
+			}
+			tf.WriteTrace(resetMeta(w, fmt.Sprintf("forged%d", r), base, 0), tr)
+			sum.Behaviours++
+			sum.Nontrivial++
+		})
+	}
+	vh.Must(tf.Close())
+	sum.Traces, sum.Lines = tf.N, tf.L
+	vh.WriteJSON(filepath.Join(out, "fec_forged.json"), sum)
+}
